@@ -4356,7 +4356,10 @@ int archive_read_support_format_rar5(struct archive *_a) {
 	    rar5_has_encrypted_entries);
 
 	if(ret != ARCHIVE_OK) {
-		(void) rar5_cleanup(ar);
+		/* Not registered (e.g. registered before): a->format does not
+		 * point to us, release what rar5_init() allocated. */
+		cdeque_free(&rar->cstate.filters);
+		free(rar);
 	}
 
 	return ret;
